@@ -46,3 +46,11 @@ def mismatch_test(exe, target, workdir, name):
             return d['kind'] in ('reject', 'compile-crash', 'il-invalid')
         return d['behaviour'] != ref or d['asan'] or d['trap']
     return test
+
+
+def reduce_tokens(data, test, maxtests=1500):
+    """ddmin over C tokens; test(bytes)->bool"""
+    from . import mutate
+    toks = mutate.tokens(data)
+    res = ddmin(toks, lambda t: test(b''.join(t)), maxtests)
+    return b''.join(res)
